@@ -155,7 +155,7 @@ def main(out_json, out_lean):
         if cname == "ConvexSupportFunction":
             res.append(trace_class(cname, cls, inf_params=("M",)))
     json.dump(res, open(out_json, "w"), indent=1)
-    lean = "import PepitModel.QForm\n\n/-! GENERATED by translator T1 (gen_classes.py) from the working tree of /repo. Do not edit. -/\n\nnamespace Gen\n\n"
+    lean = "import PepitModel.QForm\nset_option linter.unusedVariables false\n\n/-! GENERATED by translator T1 (gen_classes.py) from the working tree of /repo. Do not edit. -/\n\nnamespace Gen\n\n"
     for r in res:
         if r["inf_params"]:
             continue
